@@ -194,13 +194,19 @@ the wider type wins, at equal item size the unsigned one -/
 def harmonise (X Y : TArr) : Except Err (TArr × TArr) :=
   if X.dt = Y.dt then pure (X, Y)
   else
-    match X.arr.min?, Y.arr.min? with
-    | some mx, some my =>
-      if mx < 0 ∨ my < 0 then throw .dataInvalid
-      else if X.dt.itemsize > Y.dt.itemsize ∨ (X.dt.itemsize = Y.dt.itemsize ∧ X.dt.signed = false) then
-        pure (X, Y.astype X.dt)
-      else pure (X.astype Y.dt, Y)
-    | _, _ => throw .valueError
+    -- `if X.min() < 0 or Y.min() < 0: raise DataInvalid` (short-circuit: `Y.min()` is only evaluated
+    -- when `X.min() >= 0`; `.min()` of an empty array is a ValueError)
+    match X.arr.min? with
+    | none => throw .valueError
+    | some mx =>
+      if mx < 0 then throw .dataInvalid
+      else match Y.arr.min? with
+        | none => throw .valueError
+        | some my =>
+          if my < 0 then throw .dataInvalid
+          else if X.dt.itemsize > Y.dt.itemsize ∨ (X.dt.itemsize = Y.dt.itemsize ∧ X.dt.signed = false) then
+            pure (X, Y.astype X.dt)
+          else pure (X.astype Y.dt, Y)
 
 def jointCounts (X : TArr) (Y : Option TArr) (nx ny : Option Int) : Except Err JC := do
   let nx ← match nx with
@@ -336,7 +342,14 @@ structure WMI where
   terms : List (List (List Term))
   states : List Int
 
-/-- the validation stage of `weighted_mi`: returns the state counts and their maximum -/
+/-- the validation stage of `weighted_mi`: returns the state counts and their maximum.
+Not modelled (listed in the trusted base of `harness/props/c18.py`):
+* the default state counts are built as `np.full(F, features.max()+1, dtype='int16')`: the sum is taken in the
+  FEATURE dtype and stored as int16, so it wraps for an id equal to the dtype maximum or ≥ 32767; the model
+  uses `max + 1` as an integer (the harness exercises the edge and reports a wrap as a violation);
+* the trailing `np.clip(mi_mtx, 0, inf)`: the driver prints the unclipped terms and the harness applies
+  `max(0, ·)` before comparing (the exact value is ≥ 0 for uniform weights by `weighted_uniform_eq_counts`
+  and `mi_nonneg`; for general weights non-negativity is checked on the real outputs only). -/
 def wmiValidate (X : Arr) (wl : List Rat) (nfs : Option (List Int)) : Except Err (List Int × Int) := do
   if wl.any (· < 0) then throw .assertion
   if ratSum wl = 0 then throw .assertion
